@@ -972,6 +972,14 @@ def call_ext(it, dotted, args, kwargs):
         x = _num(args[0])
         if x.is_const():
             return False
+        from .poly import _ATOMS
+        if all(_ATOMS[a].fn is not None for a in x.atoms()):
+            # a closed expression (functions of constants only): decided by evaluating it
+            try:
+                v = x.evalf({})
+                return v != v
+            except (ValueError, ZeroDivisionError, OverflowError, KeyError):
+                pass
         return Label('isnan(%s)' % x.key(), True, 'isnan(...)')
     if short == 'angle' or short == 'phase':
         return apply_fn('phase', _num(args[0]))
